@@ -12,7 +12,9 @@ documentation only and suppress nothing.
 import json
 import os
 
-PATH = os.path.join(os.path.dirname(os.path.dirname(os.path.abspath(__file__))), 'known_findings.json')
+PATH = os.environ.get('VERIF_KNOWN_FINDINGS') or \
+    os.path.join(os.path.dirname(os.path.dirname(os.path.abspath(__file__))), 'known_findings.json')
+# (VERIF_KNOWN_FINDINGS is for the self-test of this mechanism only; checks registered in MANIFEST.json use the committed file)
 
 
 def load():
